@@ -54,6 +54,7 @@ type sbuild struct {
 }
 
 func (b *sbuild) cb() error {
+	sim.NoteProgress()
 	k := b.cbCalls
 	b.cbCalls++
 	if b.plan.cbFail >= 0 && k == b.plan.cbFail {
